@@ -79,7 +79,7 @@ def do_step(am, s, st, k, orig_n):
                 p = s.box.position_cartesian_to_relative(p)
             kw['pos'] = p.tolist() if _bits(st, k) & 1 else p
             if sel.get('atol', 'default') != 'default':
-                kw['atol'] = {'zero': 0.0 if _bits(st, k) & 4 else 0, 'wide': 0.1}[sel['atol']]
+                kw['atol'] = {'zero': 0.0 if _bits(st, k) & 4 else 0, 'wide': 0.1, 'huge': 1000.0}[sel['atol']]
                 if scale and sel['atol'] == 'zero' and off == 'exact':
                     kw['atol'] = 1e-12          # through the relative -> Cartesian conversion "exact" means exact to rounding
     if act == 'interstitial' and 'near' in a:
